@@ -2,5 +2,6 @@ SPECIFICATION Spec
 CONSTANTS
  MaxLen = 4
  EditLen = 4
-INVARIANTS FileNameNoEscape ConcatStaysName UnderRoot FilePathLastIsName EditSafe
+ CtorLen = 4
+INVARIANTS FileNameNoEscape ConcatStaysName UnderRoot FilePathLastIsName EditSafe ConversionSafe CtorExact
 CHECK_DEADLOCK FALSE
